@@ -237,36 +237,6 @@ theorem pop_at_root_is_success {σ : Type} (cb : Cb σ) (s : σ) (t : JVal) (fut
 
 /-! ### stop, error, invalid codes -/
 
-/-- the log of a whole visit satisfies the log invariant of the reference machine -/
-private theorem visit_logInv {σ : Type} (cb : Cb σ) (s : σ) (t : JVal) :
-    LogInv ((events t).foldl (step (withLog cb)) ⟨.run, (s, [])⟩) :=
-  run_logInv cb (events t) ⟨.run, (s, [])⟩ (by intro x hx; simp at hx)
-
-/-- what the log invariant says about the visitor: a call whose code is not CONTINUE/SKIP/POP is the last
-call made, and then the result is 0 for STOP and JSON_C_VISIT_RETURN_ERROR for anything else; if there is
-no such call the result is 0 -/
-private theorem visit_log_cases {σ : Type} (cb : Cb σ) (s : σ) (t : JVal) (futureFlags : Int) :
-    let out := visit (withLog cb) (s, []) t futureFlags
-    (out.1 = 0 ∧ ∀ x ∈ out.2.2, GoesOn x.2) ∨
-    (∃ init c r, out.2.2 = init ++ [(c, r)] ∧ (∀ x ∈ init, GoesOn x.2) ∧ ¬ GoesOn r ∧
-      out.1 = if r = visitStop then 0 else visitError) := by
-  intro out
-  have hout : out = _ := visit_eq_reference (withLog cb) (s, []) t futureFlags
-  have hinv := visit_logInv cb s t
-  rw [hout]
-  unfold traverse
-  dsimp only
-  generalize (events t).foldl (step (withLog cb)) ⟨.run, (s, [])⟩ = m at hinv
-  obtain ⟨mode, st⟩ := m
-  cases mode with
-  | halted res =>
-    right
-    obtain ⟨init, c, r, h1, h2, h3, h4⟩ := hinv
-    refine ⟨init, c, r, h1, h2, h3, ?_⟩
-    dsimp only [Mode.result]
-    rw [h4]; split <;> rfl
-  | _ => left; exact ⟨rfl, hinv⟩
-
 /-- STOP, returned on any call (first or second, root or nested), ends the whole traversal at once —
 that call is the last one — with result 0. -/
 theorem stop_is_success {σ : Type} (cb : Cb σ) (s : σ) (t : JVal) (futureFlags : Int) (c : Call)
@@ -274,7 +244,9 @@ theorem stop_is_success {σ : Type} (cb : Cb σ) (s : σ) (t : JVal) (futureFlag
     (visit (withLog cb) (s, []) t futureFlags).1 = 0 ∧
     (visit (withLog cb) (s, []) t futureFlags).2.2.getLast? = some (c, visitStop) := by
   have hng : ¬ GoesOn visitStop := by unfold GoesOn; codes
-  rcases visit_log_cases cb s t futureFlags with ⟨_, h2⟩ | ⟨init, c', r, h1, h2, h3, h4⟩
+  rw [visit_eq_reference] at h ⊢
+  dsimp only at h ⊢
+  rcases traverse_log_cases cb s t with ⟨_, h2⟩ | ⟨init, c', r, h1, h2, h3, h4⟩
   · exact absurd (h2 _ h) hng
   · rw [h1] at h ⊢
     rcases List.mem_append.1 h with h | h
@@ -289,13 +261,15 @@ theorem error_is_failure {σ : Type} (cb : Cb σ) (s : σ) (t : JVal) (futureFla
     (visit (withLog cb) (s, []) t futureFlags).1 < 0 ∧
     (visit (withLog cb) (s, []) t futureFlags).2.2.getLast? = some (c, visitError) := by
   have hng : ¬ GoesOn visitError := by unfold GoesOn; codes
-  rcases visit_log_cases cb s t futureFlags with ⟨_, h2⟩ | ⟨init, c', r, h1, h2, h3, h4⟩
+  rw [visit_eq_reference] at h ⊢
+  dsimp only at h ⊢
+  rcases traverse_log_cases cb s t with ⟨_, h2⟩ | ⟨init, c', r, h1, h2, h3, h4⟩
   · exact absurd (h2 _ h) hng
   · rw [h1] at h ⊢
     rcases List.mem_append.1 h with h | h
     · exact absurd (h2 _ h) hng
     · simp at h; obtain ⟨rfl, rfl⟩ := h
-      have : (visit (withLog cb) (s, []) t futureFlags).1 = visitError := by rw [h4]; codes
+      have : (traverse (withLog cb) (s, []) t).1.toInt = visitError := by rw [h4]; codes
       exact ⟨this, by rw [this]; exact codes_distinct.2.2, by simp⟩
 
 /-- Any value other than the five documented codes, returned on any call (first or second, root or nested),
@@ -306,7 +280,9 @@ theorem invalid_code_is_error {σ : Type} (cb : Cb σ) (s : σ) (t : JVal) (futu
     (visit (withLog cb) (s, []) t futureFlags).1 = visitError ∧
     (visit (withLog cb) (s, []) t futureFlags).2.2.getLast? = some (c, r) := by
   have hng : ¬ GoesOn r := by unfold GoesOn; simp [hr.1, hr.2.1, hr.2.2.1]
-  rcases visit_log_cases cb s t futureFlags with ⟨_, h2⟩ | ⟨init, c', r', h1, h2, h3, h4⟩
+  rw [visit_eq_reference] at h ⊢
+  dsimp only at h ⊢
+  rcases traverse_log_cases cb s t with ⟨_, h2⟩ | ⟨init, c', r', h1, h2, h3, h4⟩
   · exact absurd (h2 _ h) hng
   · rw [h1] at h ⊢
     rcases List.mem_append.1 h with h | h
@@ -322,7 +298,9 @@ theorem result_zero_iff_no_error {σ : Type} (cb : Cb σ) (s : σ) (t : JVal) (f
       ∀ x ∈ (visit (withLog cb) (s, []) t futureFlags).2.2,
         x.2 = visitContinue ∨ x.2 = visitSkip ∨ x.2 = visitPop ∨ x.2 = visitStop) := by
   have hne : visitError ≠ 0 := by have := codes_distinct.2.2; omega
-  rcases visit_log_cases cb s t futureFlags with ⟨h1, h2⟩ | ⟨init, c', r, h1, h2, h3, h4⟩
+  rw [visit_eq_reference]
+  dsimp only
+  rcases traverse_log_cases cb s t with ⟨h1, h2⟩ | ⟨init, c', r, h1, h2, h3, h4⟩
   · refine ⟨Or.inl h1, fun _ x hx => ?_, fun _ => h1⟩
     rcases h2 x hx with h | h | h
     · exact Or.inl h
@@ -353,22 +331,26 @@ theorem result_zero_iff_no_error {σ : Type} (cb : Cb σ) (s : σ) (t : JVal) (f
 /-- SKIP or POP returned on the second call for a container is treated as CONTINUE: `_json_c_visit`
 returns CONTINUE to its caller (whose loop therefore goes on with the next sibling, `afterChild`), … -/
 theorem second_visit_maps_skip_pop {σ : Type} (cb : Cb σ) (s : σ) (id : Nat) (p : Option Nat) (sl : Slot) :
-    (∀ xs : List JVal, (cb s ⟨id, .arr xs, 0, p, sl⟩).1 = visitContinue →
-      let l := visitElems cb (cb s ⟨id, .arr xs, 0, p, sl⟩).2 xs id 0 (id + 1)
-      let r2 := cb l.2 ⟨id, .arr xs, visitSecond, p, sl⟩
+    (∀ (xs : List JVal) (l : LoopEnd × σ) (r2 : Int × σ),
+      (cb s ⟨id, .arr xs, 0, p, sl⟩).1 = visitContinue →
+      l = visitElems cb (cb s ⟨id, .arr xs, 0, p, sl⟩).2 xs id 0 (id + 1) →
+      r2 = cb l.2 ⟨id, .arr xs, visitSecond, p, sl⟩ →
       (∀ c, l.1 ≠ .ret c) → (r2.1 = visitSkip ∨ r2.1 = visitPop) →
       visitNode cb s (.arr xs) id p sl = (visitContinue, r2.2)) ∧
-    (∀ kvs : List (Bytes × JVal), (cb s ⟨id, .obj kvs, 0, p, sl⟩).1 = visitContinue →
-      let l := visitMembers cb (cb s ⟨id, .obj kvs, 0, p, sl⟩).2 kvs id (id + 1)
-      let r2 := cb l.2 ⟨id, .obj kvs, visitSecond, p, sl⟩
+    (∀ (kvs : List (Bytes × JVal)) (l : LoopEnd × σ) (r2 : Int × σ),
+      (cb s ⟨id, .obj kvs, 0, p, sl⟩).1 = visitContinue →
+      l = visitMembers cb (cb s ⟨id, .obj kvs, 0, p, sl⟩).2 kvs id (id + 1) →
+      r2 = cb l.2 ⟨id, .obj kvs, visitSecond, p, sl⟩ →
       (∀ c, l.1 ≠ .ret c) → (r2.1 = visitSkip ∨ r2.1 = visitPop) →
       visitNode cb s (.obj kvs) id p sl = (visitContinue, r2.2)) ∧
     afterChild visitContinue = .next ∧ finalSwitch visitContinue = 0 := by
-  refine ⟨fun xs h1 l r2 hl hr => ?_, fun kvs h1 l r2 hl hr => ?_, by simp, by simp⟩
-  · rw [visitNode_arr_continue cb s xs id p sl h1, afterLoop_not_ret _ _ _ hl]
-    rcases hr with hr | hr <;> simp [r2, l] at hr <;> rw [hr] <;> simp [r2, l]
-  · rw [visitNode_obj_continue cb s kvs id p sl h1, afterLoop_not_ret _ _ _ hl]
-    rcases hr with hr | hr <;> simp [r2, l] at hr <;> rw [hr] <;> simp [r2, l]
+  refine ⟨?_, ?_, by simp, by simp⟩
+  · intro xs l r2 h1 hl hr2 hnr hr
+    rw [visitNode_arr_continue cb s xs id p sl h1, ← hl, afterLoop_not_ret _ _ _ hnr, ← hr2]
+    rcases hr with hr | hr <;> rw [hr] <;> simp
+  · intro kvs l r2 h1 hl hr2 hnr hr
+    rw [visitNode_obj_continue cb s kvs id p sl h1, ← hl, afterLoop_not_ret _ _ _ hnr, ← hr2]
+    rcases hr with hr | hr <;> rw [hr] <;> simp
 
 /-- the user function that answers CONTINUE wherever `cb` answers SKIP or POP on a flagged call -/
 def secondSkipPopAsContinue {σ : Type} (cb : Cb σ) : Cb σ := fun s c =>
@@ -413,7 +395,7 @@ private def scripted (script : List (Nat × Int)) : Cb Nat := fun n _ =>
 private def observe (r : Int × Nat × List (Call × Int)) : Int × List (Nat × Nat × Int) :=
   (r.1, r.2.2.map (fun x => (x.1.node, x.1.flags, x.2)))
 
-/-- all-continue: 14 nodes, 6 containers, 20 calls in document order -/
+/-- all-continue: 13 nodes, 7 of them containers, 20 calls in document order -/
 example : observe (visit (withLog (scripted [])) (0, []) demoTree) =
     (0, [(0,0,0),(1,0,0),(2,0,0),(3,0,0),(4,0,0),(5,0,0),(3,2,0),(6,0,0),(7,0,0),(8,0,0),(8,2,0),(6,2,0),(1,2,0),
          (9,0,0),(10,0,0),(10,2,0),(11,0,0),(9,2,0),(12,0,0),(0,2,0)]) := by decide
